@@ -99,3 +99,50 @@ pub fn div_euclid_truncated_quotient_overflows(l: Layout, a: u128, b: u128) -> b
     !l.fits(&t)
 }
 pub const KF_DIV_EUCLID: &str = "div_euclid-truncated-quotient-overflow";
+
+/// The behaviour the pinned tree documents for `div_euclid` inside the cause region of the known
+/// finding (truncated fixed-point quotient not representable): quotient = round_to_zero(wrap(t)),
+/// adjusted by the wrapped unit when the remainder is negative. Returns (wrapped value, flag).
+/// A mismatch is attributed to the known finding only if the observed outcome is exactly this one;
+/// anything else inside the region (other than the exact result) is a different failure.
+pub fn div_euclid_legacy(l: Layout, a: u128, b: u128) -> (u128, bool) {
+    let za = l.z(a);
+    let zb = l.z(b);
+    let t = za.shl(l.frac).divrem_trunc(zb).0;
+    let mut flag = !l.fits(&t);
+    let q0 = l.wrap(&t);
+    let mut q = l.wrap(&exact_un(l, "round_to_zero", q0));
+    let rem = za.divrem_trunc(zb).1;
+    if l.signed && rem.is_neg() {
+        let unit = if zb.is_neg() { Z::pow2(l.frac) } else { Z::pow2(l.frac).neg() };
+        let o1 = !l.fits(&unit);
+        let sum = l.z(q).add(l.z(l.wrap(&unit)));
+        let o2 = !l.fits(&sum);
+        q = l.wrap(&sum);
+        flag = flag | o1 | o2;
+    }
+    (q, flag)
+}
+
+/// expected *legacy* outcome of one div_euclid form inside the known-finding region
+/// form: 0 checked, 1 saturating, 2 wrapping, 3 overflowing, 4 plain (None = panic under debug assertions)
+pub fn div_euclid_legacy_outcome(l: Layout, form: usize, a: u128, b: u128, checked_profile: bool) -> crate::Out {
+    use crate::Out;
+    let (q, flag) = div_euclid_legacy(l, a, b);
+    match form {
+        0 => Out::O(None),
+        1 => {
+            let pos = |raw: u128| !l.is_neg(raw) && raw & crate::mask(l.w) != 0;
+            Out::V(if pos(a) == pos(b) { l.max_raw() } else { l.min_raw() })
+        }
+        2 => Out::V(q),
+        3 => Out::P(q, flag),
+        _ => {
+            if checked_profile {
+                Out::Panic
+            } else {
+                Out::V(q)
+            }
+        }
+    }
+}
